@@ -247,12 +247,45 @@ fn stale_frontier_scenario(out: &mut NdjsonWriter) {
     }
 }
 
+/// C15 termination: chains with notes in random places (so scans discover notes and the wallet extends
+/// its queue with FoundNote ranges), long empty stretches (Verify / ChainTip splitting around the
+/// pruning depth), then the documented client loop with a bounded number of environment steps
+fn sync_scenarios(out: &mut NdjsonWriter, seed: u64, n: u64, ironwood: bool) {
+    for i in 0..n {
+        let mut r = Run::new(out, seed.wrapping_mul(7919).wrapping_add(i), ironwood, json!(format!("sync {i}")));
+        let mut rng = ChaChaRng::seed_from_u64(seed ^ i);
+        let len = [12u32, 40, 130, 260][(i % 4) as usize];
+        for _ in 0..len {
+            if rng.gen_bool(0.25) {
+                let mut taken = vec![];
+                let txs: Vec<TxReq> = vec![r.random_tx(&mut taken)];
+                r.block(&txs, &[], false);
+            } else {
+                r.block(&[], &[], false);
+            }
+        }
+        // sometimes part of the chain was scanned before (out of order), sometimes the tip moved in between
+        if rng.gen_bool(0.5) {
+            r.tip_top();
+            let top = r.chain.top();
+            let from = rng.gen_range(r.chain.base + 1..=top);
+            r.scan(from, rng.gen_range(1..20));
+        }
+        r.sync_loop(if i % 3 == 0 { 0 } else { 3 });
+        r.catch_up_and_fresh();
+    }
+}
+
 fn main() {
     quiet_panics();
     let args: Vec<String> = std::env::args().collect();
     let mut out = NdjsonWriter::create(&args[1]);
     if args[2] == "scenarios" {
         scenarios(&mut out);
+    } else if args[2] == "sync-scenarios" {
+        let n: u64 = args.get(3).map(|s| s.parse().unwrap()).unwrap_or(8);
+        sync_scenarios(&mut out, seed_from_env(), n, false);
+        sync_scenarios(&mut out, seed_from_env() + 1, n / 2, true);
     } else if args[2] == "stale-frontier-scenario" {
         stale_frontier_scenario(&mut out);
     } else if args[2] == "retention-scenarios" {
